@@ -45,6 +45,8 @@ type zzTransport struct {
 	// closedWhileWriting: Close arrived while a Write/Writev was in progress (C06)
 	closedWhileWriting bool
 	writesAfterClose   int
+	gate               chan struct{} // when non-nil, Write/Writev block until it is closed (stalled sender)
+	buffers            int           // buffers handed to Write/Writev so far
 }
 
 func newZZTransport() *zzTransport {
@@ -66,12 +68,16 @@ func (t *zzTransport) Write(p []byte) (int, error) {
 		return 0, t.writeErr
 	}
 	t.inWrite = true
+	if t.gate != nil {
+		<-t.gate
+	}
 	if t.yield {
 		vrt.Yield()
 	}
 	if t.onWrite != nil {
 		t.onWrite(p)
 	}
+	t.buffers++
 	t.record(p)
 	t.inWrite = false
 	return len(p), nil
@@ -87,11 +93,15 @@ func (t *zzTransport) Writev(buffs transport.Buffers) (int64, error) {
 		return 0, t.writeErr
 	}
 	t.inWrite = true
+	if t.gate != nil {
+		<-t.gate
+	}
 	if t.yield {
 		vrt.Yield()
 	}
 	var n int64
 	for _, b := range buffs {
+		t.buffers++
 		if t.onWrite != nil {
 			t.onWrite(b)
 		}
